@@ -428,7 +428,7 @@ Section Loops.
     induction fuel as [|f IH]; intros sc cu_end offs hooks s ys s' Hh Hg H; [discriminate|].
     cbn [loc5_sess] in H. cbn [loc5_loop].
     destruct cu_end as [cu_end_offset|].
-    - destruct (ss_ll s <? cu_end_offset).
+    - destruct (in_block (ss_ll s) cu_end_offset offs).
       + destruct (match offs with o :: _ => o | [] => cu_end_offset end =? ss_ll s).
         * destruct (parse_locview_pairs _ _ _ _ _) as [[pairs bs1]|e]; cbn [bind] in H |- *; [|discriminate].
           destruct (PyData.dict_get _ _ _) as [cv|]; [|discriminate].
@@ -460,7 +460,7 @@ Section Loops.
     induction fuel as [|f IH]; intros sc cu_end offs hooks s ls Hh Hg H; [discriminate|].
     cbn [loc5_loop] in H. cbn [loc5_sess].
     destruct cu_end as [cu_end_offset|].
-    - destruct (ss_ll s <? cu_end_offset).
+    - destruct (in_block (ss_ll s) cu_end_offset offs).
       + destruct (match offs with o :: _ => o | [] => cu_end_offset end =? ss_ll s).
         * destruct (parse_locview_pairs _ _ _ _ _) as [[pairs bs1]|e]; cbn [bind] in H |- *; [|discriminate].
           destruct (PyData.dict_get _ _ _) as [cv|]; [|discriminate].
@@ -1007,7 +1007,7 @@ Section Reach.
     induction fuel as [|f IH]; intros sc cu_end offs hooks s ys s' Hh Hg H; [discriminate|].
     cbn [loc5_sess] in H.
     destruct cu_end as [cu_end_offset|].
-    - destruct (ss_ll s <? cu_end_offset).
+    - destruct (in_block (ss_ll s) cu_end_offset offs).
       + destruct (match offs with o :: _ => o | [] => cu_end_offset end =? ss_ll s).
         * destruct (parse_locview_pairs _ _ _ _ _) as [[pairs bs1]|e]; cbn [bind] in H; [|discriminate].
           destruct (PyData.dict_get _ _ _) as [cv|]; [|discriminate].
